@@ -163,10 +163,29 @@ func runCloseCase(cc closeCase) (string, string) {
 		if cc.Code == 1005 {
 			payload = nil
 		}
-		peer.writeFrame(RawFrame{Fin: true, Op: 8, Payload: payload})
 		ctx, cancel := context.WithTimeout(context.Background(), 8*time.Second)
 		defer cancel()
-		_, _, err := c.Read(ctx)
+		var err error
+		if cc.Mid == "split" && len(payload) >= 2 {
+			// the Close frame reaches the endpoint in two transport reads, the cut inside its payload: the read is
+			// already waiting when the first part arrives
+			rd := make(chan error, 1)
+			go func() { _, _, e := c.Read(ctx); rd <- e }()
+			time.Sleep(15 * time.Millisecond)
+			f := RawFrame{Fin: true, Op: 8, Payload: payload, Masked: !cc.Client, Key: [4]byte{4, 3, 2, 1}}
+			e := f.Encode()
+			cut := len(e) - len(payload) + 1 + len(payload)/2
+			if cut >= len(e) {
+				cut = len(e) - 1
+			}
+			pend.Write(e[:cut])
+			time.Sleep(25 * time.Millisecond)
+			pend.Write(e[cut:])
+			err = <-rd
+		} else {
+			peer.writeFrame(RawFrame{Fin: true, Op: 8, Payload: payload})
+			_, _, err = c.Read(ctx)
+		}
 		var ce websocket.CloseError
 		if !errors.As(err, &ce) || int(ce.Code) != cc.Code || ce.Reason != string(reason) {
 			return "peer-close-not-reported", fmt.Sprintf("peer sent Close(%d, %q): Read returned %v", cc.Code, trunc(string(reason), 20), err)
@@ -417,6 +436,9 @@ func runC06(ctx *runCtx) {
 	for _, client := range []bool{true, false} {
 		cases = append(cases, closeCase{Kind: "local", Client: client, Code: 1000, Reason: hx([]byte("bye")), PendingRead: true})
 		cases = append(cases, closeCase{Kind: "local", Client: client, Code: 4001, Reason: "-", PendingRead: true})
+		cases = append(cases, closeCase{Kind: "peer", Client: client, Code: 1000, Reason: hx([]byte("split in two")), Mid: "split"},
+			closeCase{Kind: "peer", Client: client, Code: 3999, Reason: "-", Mid: "split"},
+			closeCase{Kind: "peer", Client: client, Code: 1001, Reason: hx(bytes.Repeat([]byte("r"), 123)), Mid: "split"})
 		for _, mid := range []string{"unread-queued", "partial-final", "partial-first", "partial-second", "full-read"} {
 			cases = append(cases, closeCase{Kind: "local", Client: client, Code: 1000, Reason: hx([]byte("done")), Mid: mid})
 			cases = append(cases, closeCase{Kind: "local", Client: client, Code: 3000, Reason: "-", Mid: mid})
